@@ -159,7 +159,8 @@ type castCase struct {
 	Invalid  string // which deliberate mistake the cast contains, if any
 }
 
-var actorPool = []string{"alice", "bob", "carol", "dave", "eve", "zoé", "node", "srv_1", "w", "Porch"}
+// identifiers may hold symbols (\\p{S}): the ones here are bytes >= 0x80, which the shell leaves alone
+var actorPool = []string{"alice", "bob", "carol", "dave", "eve", "zoé", "node", "srv_1", "w", "Porch", "c©t", "x±y"}
 var rolePool = []string{"doctor", "nurse", "road", "light", "kv", "client", "x1", "boss"}
 var actionPool = []string{"cure", "run", "red", "green", "up", "down", "a1", "go_on", "ping", "flush", "stats", "push", "pus", "hash", "sh", "s", "ssh"}
 var varPool = []string{"patient", "road", "port", "a", "b", "X_1", "mode", "_u", "target", "i", "HOME", "TMPDIR"}
@@ -423,6 +424,24 @@ func genCast(rng *rand.Rand, self string) *castCase {
 		}
 		d.With, d.WithTxt, d.Opaque = genWith(rng, d.Mul > 0)
 		c.Cast = append(c.Cast, d)
+	}
+	if rng.Intn(5) == 0 {
+		// two actors whose names differ in a symbol only: each has its own
+		// directory, scripts and with clause
+		pair := [][2]string{{"till€", "till£"}, {"a°b", "a×b"}, {"€", "¥"}}[rng.Intn(3)]
+		for k := 0; k < 2; k++ {
+			d := &actorDef{Name: pair[k], Role: c.Roles[rng.Intn(len(c.Roles))].Name}
+			if k == 1 && rng.Intn(3) == 0 {
+				d.Mul = 2
+			}
+			d.With, d.WithTxt, d.Opaque = genWith(rng, d.Mul > 0)
+			if len(d.With) == 0 {
+				d.With = []withItem{{Name: "who", Val: "n" + strconv.Itoa(k), Src: "n" + strconv.Itoa(k), Literal: true}}
+				d.WithTxt = "who=n" + strconv.Itoa(k)
+				d.Opaque = false
+			}
+			c.Cast = append(c.Cast, d)
+		}
 	}
 	return c
 }
